@@ -210,3 +210,29 @@ Theorem C12_error_step_partial : forall (c : cfg) (t : nat) (s : store),
   forall l, run loc_eqb (serial_cvc_items_err c t) s l = run loc_eqb (smp_cvc_items_err c t) s l.
 Proof. exact error_free_step_paths_agree. Qed.
 Print Assumptions C12_error_step_partial.
+
+(* (xii) Small steps.  An item is a read phase (copy what it looks at), a computation and a write phase; a trace is any
+   sequence of read/write phases in which an item is read only while it is not in flight and written only while it is
+   (valid_trace), so the phases of items running on different threads interleave freely.  If the items respect their footprints
+   and are pairwise independent and every item commits exactly once, the store after the trace equals, location by location,
+   the store of the atomic serial execution.  (C12_order_independent at the granularity of phases; every execution of threads that
+   each run their queue item after item is such a trace - thread_mops, valid_thread - and so is any interleaving of them.) *)
+Theorem C12_small_step_schedule_independent : forall (L V : Type) (eqb : L -> L -> bool),
+  (forall a b, eqb a b = true <-> a = b) ->
+  forall (items : list (item L V)), Forall wf items -> Pairwise indep items ->
+  forall (tr : list mop) (s : L -> V),
+  valid_trace tr [] -> Permutation (wr_order tr) (seq 0 (length items)) ->
+  seq_eq (mrun eqb items tr s []) (run eqb items s).
+Proof. exact small_step_stmt. Qed.
+Print Assumptions C12_small_step_schedule_independent.
+
+(* a genuinely interleaved trace of three items on two threads: both threads read before either writes *)
+Example C12_small_step_example :
+  let tr := [Rd 2; Rd 0; Wr 0; Wr 2; Rd 1; Wr 1] in
+  valid_trace tr [] /\ wr_order tr = [0; 2; 1] /\ Permutation (wr_order tr) (seq 0 3).
+Proof.
+  cbv zeta. split; [|split].
+  - cbn. repeat split; auto; intros H; repeat (destruct H as [H|H]; try discriminate); auto.
+  - reflexivity.
+  - cbn. apply perm_skip. apply perm_swap.
+Qed.
